@@ -13,6 +13,7 @@ mod tr_core;
 mod tr_expr;
 mod tr_loop;
 mod tr_macro;
+mod tr_serde;
 mod tr_method;
 mod tr_mut;
 mod tr_pat;
@@ -195,7 +196,15 @@ fn translate_one(
             }
         }
     }
-    let res = if t.group == "Macros" { tr_macro::translate_macro_fn(&mut tr, sig, block) } else { translate_fn(&mut tr, sig, block) };
+    let res = if t.group == "Macros" {
+        tr_macro::translate_macro_fn(&mut tr, sig, block)
+    } else if t.group == "Serde" && t.func == "serialize" {
+        tr_serde::translate_serialize(&mut tr, sig, block)
+    } else if t.group == "Serde" {
+        tr_serde::translate_deserialize(&mut tr, sig, block)
+    } else {
+        translate_fn(&mut tr, sig, block)
+    };
     // hash: the item, and every source item that was consulted to translate it
     let mut hashed = toks;
     for (k, v) in &tr.deps {
@@ -807,6 +816,10 @@ fn main() {
         }
         js.push_str(&json_str(x));
     }
+    js.push_str("], \"absent_files\": [");
+    // files whose module is compiled out in this configuration
+    let absent: Vec<String> = reg.file_errors.iter().filter(|(_, e)| e.contains("not found in this configuration")).map(|(f, _)| json_str(f)).collect();
+    js.push_str(&absent.join(", "));
     js.push_str("]}");
     eprintln!("{}", js);
 }
